@@ -89,6 +89,13 @@ func (a *AuthIO) Raw(line string) ([]byte, error) {
 		return nil, errors.New("dropped")
 	case "reply":
 		line = fmt.Sprintf("%d %s", o.Code, o.Text)
+	case "dropafter":
+		// the challenge goes out, then the connection is closed: the client's next write fails
+		a.conn.reply(line)
+		_ = a.conn.raw.Conn.Close()
+		a.sess.Dropped = true
+		a.Dropped = true
+		return nil, errors.New("dropped after the challenge")
 	}
 	a.conn.reply(line)
 	a.conn.inAuth = true
